@@ -39,6 +39,10 @@ def representations(b, rng):
             s['coefficients'] = [[str(Decimal(c.strip()) * f) for c in col] for col, f in
                                  ((col, Decimal(rng.choice(['0.5', '2', '4', '0.25']))) for col in s['coefficients'])]
     reps.append(('scaled', sc))
+    # the elements of the dictionary in another order (dictionaries of a reader / hand-made ones are not sorted by Z)
+    ro = copy.deepcopy(b)
+    ro['elements'] = dict(reversed(list(ro['elements'].items())))
+    reps.append(('elements-reversed', ro))
     return reps
 
 
@@ -242,6 +246,39 @@ def work_generated(ctx, seed):
         return
     b['elements'] = {str(z): el}
     check_basis(ctx, b, 'gen:%d:Z=%d' % (seed, z), rng)
+    # several elements, not in increasing Z order, one of them with an ECP only: each element's auxiliary shells are those
+    # it gets alone, and the ECP-only element is not covered
+    from basis_set_exchange import manip
+    zs = rng.sample([1, 2, 3, 8, 10, 18, 19, 20, 21, 30, 36, 54, 55, 56, 57, 80], 3)
+    multi = copy.deepcopy(b)
+    multi['elements'] = {}
+    for k, z2 in enumerate(zs):
+        e2 = copy.deepcopy(el)
+        multi['elements'][str(z2)] = e2
+    pots, ne = gen.gen_ecp(rng)
+    multi['elements']['86'] = {'ecp_potentials': pots, 'ecp_electrons': ne}
+    order = list(multi['elements'])
+    rng.shuffle(order)
+    multi['elements'] = {k: multi['elements'][k] for k in order}
+    multi['function_types'] = gen.whole_types(multi['elements'])
+    for fname in FUNCS:
+        f = getattr(manip, fname)
+        whole = impl.call(f, copy.deepcopy(multi))
+        ctx.case(('multi', seed, fname), True, fname + ':multi-element')
+        replay = {'kind': 'aux', 'label': 'gen:%d:multi' % seed, 'function': fname, 'input': multi if len(str(multi)) < 15000 else None}
+        if whole[0] != 'ok':
+            ctx.violation('manip.' + fname, 'raises:%s:multi' % whole[1], '%s raises %s on a valid multi-element orbital basis' % (fname, whole[1]), replay)
+            continue
+        if sorted(whole[1]['elements']) != sorted(str(z2) for z2 in zs):
+            ctx.violation('manip.' + fname, 'elements', '%s covers %s, elements with orbital functions are %s' % (fname, sorted(whole[1]['elements']), sorted(map(str, zs))), replay)
+            continue
+        for z2 in zs:
+            single = copy.deepcopy(multi)
+            single['elements'] = {str(z2): multi['elements'][str(z2)]}
+            one = impl.call(f, single)
+            if one[0] != 'ok' or one[1]['elements'][str(z2)] != whole[1]['elements'][str(z2)]:
+                ctx.violation('manip.' + fname, 'element-order', '%s: element %d gets other auxiliary shells inside the dictionary %s than alone' % (fname, z2, order), replay)
+                break
 
 
 def run(ctx):
